@@ -1,4 +1,4 @@
 From Coq Require Extraction.
 From Coq Require Import ExtrOcamlBasic.
 From NV Require Import Base.Witness Index.Bins Bam.Record Bam.Encode Bam.Decode Bam.Lazy.
-Extraction "model.ml" nv_types_witness encode decode decode_record encode_base unpack_bases dec_op pack_bases sub_iter lazy_view_of.
+Extraction "model.ml" nv_types_witness encode decode decode_record encode_base unpack_bases dec_op pack_bases sub_iter lazy_view_of lzp_seq_len lzp_seq_get lzp_data data_get.
